@@ -4,10 +4,25 @@ use crate::sched::SchedReport;
 
 pub mod common;
 pub mod c01;
+pub mod dd;
+pub mod ddprops;
+pub mod c10;
+pub mod c11;
+pub mod c17;
+pub mod c18;
 
 pub fn run(shard: &Shard) -> i32 {
     match shard.check.as_str() {
         "c01" => c01::run(shard),
+        "c06" => ddprops::c06(shard),
+        "c07" => ddprops::c07(shard),
+        "c08" => ddprops::c08(shard),
+        "c10" => c10::run(shard),
+        "c11" => c11::run(shard),
+        "c12" => ddprops::c12(shard),
+        "c17" => c17::run(shard),
+        "c18" => c18::run(shard),
+        "c13" => ddprops::c13(shard),
         other => { eprintln!("unknown check {other}"); 2 }
     }
 }
